@@ -45,7 +45,7 @@ def compositions(total, maxk):
 def unit_cases():
     for widths in compositions(8, 4):
         for endian in "<>":
-            for storage in ("uint8", "int8", "enum8"):
+            for storage in ("uint8", "int8", "enum8", "char"):
                 for compiled in (False, True):
                     yield {"widths": list(widths), "endian": endian, "storage": storage, "compiled": compiled, "unit": 8}
     vals16 = sorted({0, 1, 0x8000, 0xFFFF, 0x7FFF, 0x00FF, 0xFF00, 0xA5A5, 0x5A5A, 0x1234, 0xFEDC} | {(i * 2654435761) & 0xFFFF for i in range(1, 90)})
@@ -63,7 +63,7 @@ def bits_case(draw):
 
 @st.composite
 def straddle_case(draw):
-    storage = draw(st.sampled_from(["uint8", "int8", "uint16", "int16", "uint32", "int32", "uint64", "int64"]))
+    storage = draw(st.sampled_from(["uint8", "int8", "uint16", "int16", "uint32", "int32", "uint64", "int64", "uint24", "int48", "uint128", "char"]))
     bits = SCALARS[storage][1] * 8
     pre = draw(st.lists(st.integers(1, bits), max_size=3))
     used = 0
@@ -77,7 +77,11 @@ def straddle_case(draw):
     bad = draw(st.integers(left + 1, bits + 3)) if 0 < left < bits else bits + draw(st.integers(1, 3))
     widths.append(bad)
     after = draw(st.lists(st.integers(1, 4), max_size=2))
-    return {"straddle": True, "storage": storage, "widths": widths + after, "bad_index": len(widths) - 1, "align": draw(st.booleans()), "endian": draw(st.sampled_from("<>")), "lead": draw(st.booleans())}
+    # what stands before the run: nothing, a plain member, a FULL unit of the same type, a partial unit of another type, a
+    # dynamic member, an enum-typed bit-field of the same storage; and the run may sit in a nested structure
+    prefix = draw(st.sampled_from(["", "lead", "full-unit", "other-partial", "dynamic", "enum-bits"]))
+    return {"straddle": True, "storage": storage, "widths": widths + after, "bad_index": len(widths) - 1, "align": draw(st.booleans()), "endian": draw(st.sampled_from("<>")),
+            "lead": prefix == "lead", "prefix": prefix, "nested": draw(st.integers(0, 3)) == 0}
 
 
 # ---------------------------------------------------------------- oracle
@@ -160,13 +164,25 @@ def _run_unit(case, ctx):
 
 def _run_straddle(case, ctx):
     m = import_repo()
-    text = "struct Root {\n" + ("    uint8 lead;\n" if case["lead"] else "") + "".join(f"    {case['storage']} f{i} : {w};\n" for i, w in enumerate(case["widths"])) + "};\n"
+    st_, bits = case["storage"], SCALARS[case["storage"]][1] * 8
+    other = "uint16" if st_ not in ("uint16", "int16") else "uint32"
+    pre = {"": "", "lead": "    uint8 lead;\n", "full-unit": f"    {st_} whole : {bits};\n", "other-partial": f"    {other} part : 3;\n",
+           "dynamic": "    uint8 n;\n    char s[n];\n", "enum-bits": f"    En eb : {bits};\n"}[case.get("prefix", "lead" if case["lead"] else "")]
+    enumdef = f"enum En : {st_} {{ A = 1 }};\n" if case.get("prefix") == "enum-bits" and st_ != "char" else ""
+    if case.get("prefix") == "enum-bits" and st_ == "char":
+        pre = ""
+    run = "".join(f"    {st_} f{i} : {w};\n" for i, w in enumerate(case["widths"]))
+    if case.get("nested"):
+        text = enumdef + "struct Root {\n" + pre + "    struct {\n" + run.replace("    ", "        ") + "    } inner;\n    uint8 after;\n};\n"
+    else:
+        text = enumdef + "struct Root {\n" + pre + run + "};\n"
     for compiled in (False, True):
         cs = m.cstruct(endian=case["endian"])
         r = lib(cs.load, text, compiled=compiled, align=case["align"])
         if not isinstance(r, Err):
             raise Violation("straddle-accepted", f"compiled={compiled} align={case['align']}: a definition whose field f{case['bad_index']} straddles its unit was accepted:\n{text}")
     ctx.count("straddle:rejected")
+    ctx.count("straddle:prefix:" + (case.get("prefix") or "none") + (":nested" if case.get("nested") else ""))
     ctx.mark_nontrivial([text, case["align"]])
     ctx.sample({"definition": text, "rejected": True}, "straddle")
 
